@@ -442,6 +442,8 @@ for _id, _prop, _rule, _desc, _eb in [
     ("c16-guard-armed-early-c12", "C12", "R12.4", "BlockClearGuard (C12g/2) armed before the write it guards", False),
     ("c11-lookup-always-found", "C11", "R11.3", "BlockTable::lookup result struct (C19g/4) reports found for a missing key", False),
     ("c12-wrong-member-pointer", "C12", "R12.1", "buffer_item(&CdnsBlock::add_*) (C12g/1) flushes when the block is NOT full", False),
+    ("c02-worker-counts-before-write", "C02", "R02.3", "block writer moved into a private worker with a result struct (C12i/3) that counts the block before writing it", False),
+    ("c12-worker-clear-before-write", "C12", "R12.4", "write_block() over the private worker (C12i/3) that clears the block before writing it", False),
     ("c14-result-unchecked", "C14", "R14.3", "compressor step reporting through a result struct (C14i/2) whose failure flag write() ignores", False),
     ("c14-result-ok-on-error", "C14", "R14.3", "compressor step reporting through a result struct (C14i/2) that says ok for a refused code", False),
     ("c06-flush-guard-inverted", "C06", "R06.4", "flush_buffer writes only when nothing is staged", False),
